@@ -393,6 +393,21 @@ class Built:
     pass
 
 
+def solve_kwargs(spec) -> dict:
+    """the public options of `solve` drawn for this model (non-default in a share of the models): clip_small, tolerance"""
+    o = spec.get("solve_opts") or {}
+    return {k: v for k, v in o.items() if v is not None}
+
+
+def gen_solve_opts(rng: Rng):
+    """None (defaults) for most models; otherwise clip_small=True and/or an explicit eigenvalue tolerance.  The tolerance stays <= 1e-10:
+    clipping entries below it moves the certificate by at most n*tol*scale, far inside the 1e-8*scale bound, and the generator keeps every
+    root at least 0.08 away from the unit circle, so the classification of roots does not depend on it."""
+    if not rng.chance(0.4):
+        return None
+    return {"clip_small": rng.choice([True, True, False]), "tolerance": rng.choice([None, 1e-12, 1e-11, 1e-10])}
+
+
 def param_terms(spec):
     """positions (equation, term) of the coefficients written as parameters, in the order spec_source names them"""
     return [(i, k) for i, eq in enumerate(spec["eqs"]) for k, t in enumerate(eq["terms"]) if t[3]]
@@ -421,7 +436,7 @@ _FAMILY_CACHE = {}
 
 def build_family(spec):
     """ONE model object carrying all parameter variants of spec["variants"] (alter_num_variants + per-variant assign), solved"""
-    key = json.dumps([spec_source(spec)[0], spec["variants"], spec["linear"]])
+    key = json.dumps([spec_source(spec)[0], spec["variants"], spec["linear"], spec.get("solve_opts")])
     if key in _FAMILY_CACHE:
         return _FAMILY_CACHE[key]
     specs = [with_param_values(spec, vals) for vals in spec["variants"]]
@@ -436,7 +451,7 @@ def build_family(spec):
             raise ValueError("variant without a determined steady path cannot be built as a non-linear model")
         assigns = [steady_assignments(sp, x) for sp, x in zip(specs, paths)]
         m.assign(**{name: [a[name] for a in assigns] for name in assigns[0]})
-    m.solve()
+    m.solve(**solve_kwargs(spec))
     _FAMILY_CACHE.clear()
     _FAMILY_CACHE[key] = m
     return m
@@ -464,7 +479,7 @@ def build_model(spec) -> Built:
             if b.steady_path is None:
                 raise ValueError("spec without a determined steady path cannot be built as a non-linear model")
             m.assign(**steady_assignments(spec, b.steady_path))
-        m.solve()
+        m.solve(**solve_kwargs(spec))
     b.m = m
     b.name_to_qid = m.create_name_to_qid()
     b.qid_to_name = m.create_qid_to_name()
@@ -1096,6 +1111,12 @@ def models_for_run(ctx: Ctx, n_models: int, tag="m"):
         if spec is None:
             ctx.count("no-determinate-spec-found")
             continue
+        if not spec.get("meas_lead"):
+            so = gen_solve_opts(r.fork("solveopts"))
+            if so is not None:
+                spec["solve_opts"] = so
+                ctx.count(f"solve-option:clip_small={so['clip_small']}")
+                ctx.count(f"solve-option:tolerance={so['tolerance']}")
         fam = gen_variant_family(r.fork("family"), spec) if i % 3 == 2 else None
         if fam:
             # a multi-variant model: every variant is judged with its own parameter values
@@ -1111,7 +1132,7 @@ def describe(spec) -> dict:
     lo, hi = spec_shift_ranges(spec)
     return {"n": spec["n"], "maxlag": -min(lo), "maxlead": max(hi), "log": any(spec["logly"]), "nm": spec["nm"],
             "unit": spec.get("unit_var") is not None, "ns": spec["ns"], "growth": bool(spec.get("growth")),
-            "variant": spec.get("variant")}
+            "variant": spec.get("variant"), "solve_opts": json.dumps(spec.get("solve_opts"))}
 
 
 def check_model(ctx: Ctx, i, r: Rng, spec, verdict, lines: dict, n_cases: int):
@@ -1133,7 +1154,7 @@ def check_model(ctx: Ctx, i, r: Rng, spec, verdict, lines: dict, n_cases: int):
     if d["growth"]:
         ctx.count("growth-model(not-linear,drift)")
         ctx.count(f"growth-model:trending-variables={1 + sum(bool(x) for x in spec.get('trend', []))}")
-    ctx.nontriv(("model", d["n"], d["maxlag"], d["maxlead"], d["log"], d["nm"], d["unit"], d["ns"], d["growth"]))
+    ctx.nontriv(("model", d["n"], d["maxlag"], d["maxlead"], d["log"], d["nm"], d["unit"], d["ns"], d["growth"], d["solve_opts"]))
     ctx.extra["programs"] = ctx.extra.get("programs", 0) + 1
     oracle_bk(ctx, b, verdict, tag)
     if b.m_all is not None:
@@ -1316,7 +1337,7 @@ def run_history(ctx: Ctx, model_id, hist, lines=None) -> bool:
                 m.assign(**spec_source(spec_cur)[1])
                 if not spec_cur["linear"]:
                     m.assign(**steady_assignments(spec_cur, own_steady_path(spec_cur, beta=spec_cur.get("beta", 0.0))))
-                m.solve()
+                m.solve(**solve_kwargs(spec_cur))
                 b = built_from_model(spec_cur, m)
             except Exception as e:
                 ctx.fail("solve-raises-on-determinate-model", stag, repr(e)[:300]); return False
@@ -1601,7 +1622,7 @@ def replay_corpus(ctx: Ctx):
 
 def run(ctx: Ctx):
     ctx.rule = ("random determinate linear / log-linear models (1-6 variables, lags and leads up to 3, measurement block, parameters, constants, "
-                "at most one unit root; every third model carries 2-3 parameter VARIANTS, each judged with its own values; balanced-growth models not declared linear) accepted by an independent eig of the harness's own pencil (stable roots <= 0.92, unstable >= 1.08); per model "
+                "at most one unit root; every third model carries 2-3 parameter VARIANTS, each judged with its own values; balanced-growth models not declared linear; 40 % of the models solved with non-default options clip_small / tolerance) accepted by an independent eig of the harness's own pencil (stable roots <= 0.92, unstable >= 1.08); per model "
                 "several simulation inputs (dyadic initial conditions, unanticipated and anticipated shocks at random dates, level/deviation, "
                 "single/split frames). distinct_nontrivial counts distinct (n, maxlag, maxlead, log, measurement, unit root, shocks) model shapes, "
                 "distinct (frames>=2, leads, shock kind) split simulations whose equations hold, and distinct dyadic-override simulation shapes")
